@@ -26,6 +26,10 @@ class FlatMapFuture(MapFuture):
 
         self.__flattened = True
         self._map_fn = lambda x: x
+        # error_fn is for a failure of the input future only. It must not be
+        # applied (a second time) to the outcome of the future we're flattening;
+        # in particular whatever it returns there would not be flattened.
+        self._error_fn = None
         self._set_delegate(result)
 
 
